@@ -1011,6 +1011,40 @@ def FANTOGGLE2(K=0, horizon=9, ops=None):
     return s
 
 
+def FANRES(K=0, horizon=11, ops=None):
+    '''Two parallel machines, one of which needs a resource that a third line holds for a long while: the starved machine
+    is offered parts and refuses them, its sibling works; once the resource is free both are idle and a part arrives:
+    the starved one has been idle longest.'''
+    devs = [src('S', 3.5), proc('M1', ['S'], 1, resources={'r': 1}), proc('M2', ['S'], 1), sink('K', ['M1', 'M2']),
+            src('S2', 1, budget=1), proc('X', ['S2'], 8, resources={'r': 1}), sink('KX', ['X'])]
+    if ops is None:
+        ops = [('fail', 'M2', 0), ('restore', 'M2')]
+    return spec(f'FANRES[K{K}]', devs, horizon, ops, K, pools={'r': 1})
+
+
+def PASS_WINDOW(K=0, horizon=6, ops=None):
+    '''A maintenance shutdown that begins between the end of a cycle and the hand-over of the finished part (scripted,
+    custom priority between FINISH_PROCESSING and PASS_PART), ends later (scripted); faults are injected on top.  The
+    finished part is kept and leaves after the restoration.'''
+    devs = [src('S', 1), proc('M1', ['S'], 1), sink('K', ['M1'])]
+    if ops is None:
+        ops = [('fail', 'M1', 0), ('restore', 'M1'), ('block', 'K', True), ('block', 'K', False)]
+    s = spec(f'PASSWINDOW[K{K}]', devs, horizon, ops, K)
+    s['script'] = [[2, 7.5, ['shutdown', 'M1']], [3.5, 2, ['restore', 'M1']]]
+    s['probes'] = 1
+    return s
+
+
+def RES_RETRY(K=0, horizon=7, ops=None):
+    '''A failure callback that puts the machine back into service at once and hands it the part it was working on again
+    (a micro-stop with retry); a second line competes for the only unit.'''
+    devs = [src('S1', 2), proc('M1', ['S1'], 2, resources={'r': 1}, retry_repair=True), sink('K1', ['M1']),
+            src('S2', 2), proc('M2', ['S2'], 2, resources={'r': 1}), sink('K2', ['M2'])]
+    if ops is None:
+        ops = [('fail', 'M1', 0), ('fail', 'M1', 1), ('addres', 'r', 1), ('addres', 'r', -1)]
+    return spec(f'RESRETRY[K{K}]', devs, horizon, ops, K, pools={'r': 1})
+
+
 def FANFAIL(K=2, horizon=8, ops=None):
     '''Parallel machines behind one source where one of them fails while idle and is repaired: from then on it has
     been waiting for a part since the repair, not since before the failure.'''
